@@ -172,6 +172,9 @@ def run(chk):
         nb = facts.body(n)
         chk.violation(rid, nb.file, n, "unchecked NotNan constructor", "%s calls %s: a NaN can enter a Value::Float" % (n, c), detail=d)
 
+    from common import run_witness
+    run_witness(chk, "R11w", "Value::Float cannot hold a bare f64 (E0308): NaN is unrepresentable")
+
     # R11e: string repeat count guard
     rid = "R11e"
     chk.rule(rid, "string repeat: the i64 count is compared `< 0` and only the non-negative edge casts to usize", floor=1)
